@@ -261,7 +261,17 @@ def np_(x):
 
 
 def cache_mask(o):
-    return "".join(c for c, a in (("S", "Sigma"), ("s", "ln_det_Sigma"), ("l", "ln_det_Lambda"), ("m", "mu"), ("Z", "lnZ")) if getattr(o, a, None) is not None)
+    """Which caches are populated -- and, when the batch sizes of the exposed arrays do NOT all agree (a malformed object),
+    their batch sizes: such an object must never be merged with a well-formed one that evaluates to the same function."""
+    mask = "".join(c for c, a in (("S", "Sigma"), ("s", "ln_det_Sigma"), ("l", "ln_det_Lambda"), ("m", "mu"), ("Z", "lnZ")) if getattr(o, a, None) is not None)
+    sizes = []
+    for a in ("Lambda", "nu", "ln_beta", "Sigma", "ln_det_Sigma", "ln_det_Lambda", "mu", "lnZ", "M", "b"):
+        v = getattr(o, a, None)
+        if v is not None and hasattr(v, "shape") and len(v.shape) >= 1:
+            sizes.append((a, int(v.shape[0])))
+    if len({s for _, s in sizes}) > 1:
+        mask += "!" + ",".join("%s%d" % (a, s) for a, s in sizes)
+    return mask
 
 
 def exercise_pdf(o):
